@@ -5,6 +5,8 @@ import (
 	"encoding/json"
 	"math/rand"
 	"os"
+	"runtime"
+	"strconv"
 	"strings"
 	"sync"
 	"time"
@@ -94,6 +96,31 @@ func concPrograms() []program {
 			co.Execute64(4, &s)
 			return s
 		}},
+		// package-level functions: their internal objects gate through the calling goroutine
+		{"BooleanOpPathsD(Xor,Positive)", func(reg func(any)) clipper.Paths64 {
+			return clipper.ScalePathsDToPaths64(clipper.BooleanOpPathsD(clipper.Xor, clipper.Paths64ToPathsD(concSubj), clipper.Paths64ToPathsD(concClip), clipper.Positive, 1), 10)
+		}},
+		{"InflatePathsD(Round,Joined)", func(reg func(any)) clipper.Paths64 {
+			return clipper.ScalePathsDToPaths64(clipper.InflatePathsD(clipper.Paths64ToPathsD(concSubj), 3.5, clipper.Round, clipper.Joined), 100)
+		}},
+		{"RectClipPathsD", func(reg func(any)) clipper.Paths64 {
+			in := append(clipper.Paths64ToPathsD(concSubj), clipper.PathD{{X: 40, Y: 30}, {X: 70, Y: 35}, {X: 50, Y: 60}})
+			return clipper.ScalePathsDToPaths64(clipper.RectClipPathsD(clipper.NewRectD(25, 15, 140, 85), in, 1), 10)
+		}},
+		{"MinkowskiSum64", func(reg func(any)) clipper.Paths64 {
+			return clipper.MinkowskiSum64(concClip[1], concSubj[0], true)
+		}},
+		{"BooleanOpPolyTree64(Union,EvenOdd)", func(reg func(any)) clipper.Paths64 {
+			t := clipper.BooleanOpPolyTree64(clipper.Union, concSubj, concClip, clipper.EvenOdd)
+			out := clipper.Paths64{}
+			for _, n := range flattenT(t.PolyPathBase) {
+				out = append(out, to64(n.Poly))
+			}
+			return out
+		}},
+		{"InflatePaths64(Miter,Joined)", func(reg func(any)) clipper.Paths64 {
+			return clipper.InflatePaths64(concClip, 5, clipper.Miter, clipper.Joined)
+		}},
 	}
 }
 
@@ -115,10 +142,30 @@ var (
 	segs      int
 )
 
+// goid: the id of the calling goroutine (parsed from the stack header). Package-level functions create their
+// engine / offset / rect-clip objects internally, so their gates are attributed to the calling goroutine.
+func goid() int64 {
+	var buf [64]byte
+	n := runtime.Stack(buf[:], false)
+	f := strings.Fields(string(buf[:n]))
+	if len(f) < 2 {
+		return -1
+	}
+	id, err := strconv.ParseInt(f[1], 10, 64)
+	if err != nil {
+		return -1
+	}
+	return id
+}
+
+var goMap sync.Map // goroutine id -> *procCtl
+
 func gateHook(obj any) {
 	v, ok := gateMap.Load(obj)
 	if !ok {
-		return
+		if v, ok = goMap.Load(goid()); !ok {
+			return
+		}
 	}
 	p := v.(*procCtl)
 	if !forceMode {
@@ -155,6 +202,9 @@ func runSchedule(n, s int, sched []int, progs []program, alone []clipper.Paths64
 		wg.Add(1)
 		go func(p int, ctl *procCtl) {
 			defer wg.Done()
+			g := goid()
+			goMap.Store(g, ctl)
+			defer goMap.Delete(g)
 			outs[p] = safeCall(func() {
 				results[p] = progs[p-1].run(func(obj any) { gateMap.Store(obj, ctl) })
 			})
@@ -249,7 +299,10 @@ func replaySchedFile(r *rand.Rand, in string, w *writer, freeG, freeRounds int) 
 	forceMode = false
 	for i, p := range progs {
 		ctl := &procCtl{id: i + 1}
+		g := goid()
+		goMap.Store(g, ctl)
 		alone[i+1] = p.run(func(obj any) { gateMap.Store(obj, ctl) })
+		goMap.Delete(g)
 		gatesAlone[i+1] = ctl.seen
 		gateMap.Range(func(k, _ any) bool { gateMap.Delete(k); return true })
 	}
